@@ -75,11 +75,11 @@ func runC17(w *World) *Result {
 	r.NotDecided = "file-system state after sequences of operations; what read returns at run time; the argument-type guards of read/write/exists are decided under C06."
 	r.Rule("R-C08-quote", "C08's per-hole quoting rule restricted to WriteFile, ReadFile, Exists", 4)
 	r.Rule("R-C17-append", "append flag true selects >>, otherwise >; selector feeds the write line; echo without -n", 3)
-	r.Rule("R-C17-args", "driver evaluates path, data and append flag once, in order, as used values, then calls WriteFile / ReadFile / Exists", 3)
+	r.Rule("R-C17-args", "driver evaluates path, data and append flag once, in order, as used values, then calls WriteFile / ReadFile / Exists", 1)
 	ProtoRule(w, r, "R-C17-args", func(n string) bool { return n == "Write" || n == "Read" || n == "Exists" })
 	r.Rule("R-C17-fresh", "the arguments of write / read / exists are collected in a list of their own (no reused buffer of tree nodes)", 1)
 	ScratchReuseRule(w, r, "R-C17-fresh")
-	r.Rule("R-C17-wiring", "path, content and append flag reach the Converter parameter they belong to", 4)
+	r.Rule("R-C17-wiring", "path, content and append flag reach the Converter parameter they belong to", 2)
 	WiringRule(w, r, "R-C17-wiring", func(m string) bool { return m == "WriteFile" || m == "ReadFile" || m == "Exists" })
 	r.Rule("R-C17-init", "the helper routines behind write/read start from a defined value on every invocation (a second read does not continue the first)", 1)
 	for _, role := range []string{"bash", "batch"} {
@@ -274,7 +274,7 @@ func runC18(w *World) *Result {
 	r.Rule("R-C18-args", "argument holes individually and unconditionally double-quoted; literal program names quoted", 2)
 	r.Rule("R-C18-pipe", "stages joined by | in list order; driver appends stages in traversal order", 3)
 	r.Rule("R-C18-capture", "one $( ) assigned to a fresh helper; $? read in the next line; result order stdout, \"\", status", 3)
-	r.Rule("R-C18-atom", "every value an argument can be is one unit of shell text (one expansion / literal): the argument quoting decides by the first character", 10)
+	r.Rule("R-C18-atom", "every value an argument can be is one unit of shell text (one expansion / literal): the argument quoting decides by the first character", 6)
 	r.Rule("R-C18-driver", "every argument of every stage is evaluated once, in order, as a used value before the single AppCall", 1)
 	ProtoRule(w, r, "R-C18-driver", func(n string) bool { return n == "AppCall" })
 	StaleListRule(w, r, "R-C18-driver")
